@@ -66,6 +66,21 @@ CLAIMED = {
              "log2 paths for int16 sigmoid/tanh. One recorded finding (int16 windows > 32768) is reported as KNOWN-FINDING.",
         technique="dynamic symbolic execution of the real Python functions over z3 FP/BV/Int proxies (symx); compositional summaries; counterexample replay",
         design="DESIGN.md §3 C09"),
+    "C19": dict(
+        text="Bounded solver verdict on the real compile-time fixed-point code, in the bit-vector theory: every fp_math helper "
+             "(saturating_rounding_mul32/16, saturating_mul16, shift_left32/16, rounding_divide_by_pot, saturating_rounding_multiply_by_pot, "
+             "rescale, downscale_multiplier) against the gemmlowp/TFLite reference over the WHOLE int32/int16 operand domain, for each "
+             "operand type that reaches it (Python int, np.int64, np.int32, np.int16, np.int8 - NumPy wrap-around and NEP-50 OverflowError "
+             "semantics modelled and validated differentially); multiply_by_quantized_multiplier, exp_on_interval and exp_on_negative_values "
+             "compositionally (proven leaf multiply as a shared uninterpreted function with its magnitude lemma); each entry of the "
+             "leaky-ReLU/PReLU table and each folded Quantize constant against the TFLite reference arithmetic for symbolic multipliers, "
+             "zero points and alpha.",
+        note="Trusted: z3 (BV/UF), symx NumPy-scalar proxies (differentially validated by symx.selfcheck), gemmlowp/TFLite definitions "
+             "restated on bit-vectors. Quick tier abstracts the 32x32 product of srm32 to a shared uninterpreted function (exact multiplier "
+             "in thorough). Outside: sigmoid/tanh/exp tables built from math.tanh/exp (transcendental), int16 interpolation tables, "
+             "the hard-swish table body.",
+        technique="dynamic symbolic execution of the real Python functions over z3 bit-vector proxies (symx); compositional uninterpreted-function summaries; counterexample replay",
+        design="DESIGN.md §3 C19"),
 }
 
 NOT_APPLICABLE = {
